@@ -384,10 +384,15 @@ where
   /-- `sorted(set(pairs), reverse=True)` -/
   sortDesc (l : List (Bytes × Bytes)) : List (Bytes × Bytes) := (l.foldr insertDesc []).eraseDups
 
-def planFilter (f : Filter) (defaultLimit : Option Nat) : Option Plan :=
+/-- `maxLimit` = `Config.max_limit`.  The plan limit is `default_limit` when the caller gives a truthy
+    one (internal callers), else the client's limit capped at `max_limit`, `null` meaning the maximum. -/
+def planFilter (f : Filter) (defaultLimit : Option Nat) (maxLimit : Nat) : Option Plan :=
   (planShape f).map fun sh =>
     { filter := f, index := sh.1, mats := sh.2.1, mats2 := sh.2.2.1,
-      limit := (match defaultLimit with | some (n+1) => some (n+1) | _ => f.limit), raises := sh.2.2.2 }
+      limit := (match defaultLimit with
+        | some (n+1) => some (n+1)
+        | _ => some (match f.limit with | some l => min l maxLimit | none => maxLimit)),
+      raises := sh.2.2.2 }
 
 /-- the compiled residual predicate (`compile_match_from_query`) evaluated on a stored record -/
 def residual (f : Filter) (e : Event) : Bool :=
